@@ -5,7 +5,7 @@ from vlib import Infra
 LEVEL = "model_checking"
 
 
-def transports(ck):
+def transports(ck, prefix="C01:"):
     """the statement over the real transports: numbered packets into a stream of a running server, real clients on every transport"""
     tr = os.path.join(ck.tmp, "transport.ndjson")
     o2 = os.path.join(ck.tmp, "transport_out.json")
@@ -19,12 +19,12 @@ def transports(ck):
         raise Infra("trace validation consumed %d of %d" % (rt.distinct - 1, n))
     if res.get("ws_writes_slowed", 0) < 100:
         raise Infra("dead driver: hook ws.write fired %d times" % res.get("ws_writes_slowed", 0))
-    ck.cov["transport_leg"] = {"rounds": res["rounds"], "items_received": res["items"], "websocket_writes": res["ws_writes"], "websocket_writes_slowed_300us": res["ws_writes_slowed"], "clients": ["RTSP/TCP (leaves)", "RTSP/UDP", "ws-rtsp", "HTTP-FLV", "WSP (cut off in mid stream)", "WSP (late)", "WebSocket-FLV (late)", "RTSP/TCP (late)", "WSP (late, second)"]}
+    ck.cov["transport_leg"] = {"rounds": res["rounds"], "items_received": res["items"], "websocket_writes": res["ws_writes"], "websocket_writes_slowed_300us": res["ws_writes_slowed"], "clients": ["RTSP/TCP (leaves)", "RTSP/UDP", "ws-rtsp", "HTTP-FLV", "WSP (cut off in mid stream)", "ws-rtsp (video track only)", "WSP (video track only)", "WSP (late)", "WebSocket-FLV (late)", "RTSP/TCP (late)", "WSP (late, second)"]}
     ck.cov["traces_validated_against_impl"] += res["rounds"]
     seen = set()
     for b in rt.printed("@BAD"):
         key = "%s:%s" % (b["why"], b["c"])
-        if key in seen:
+        if key in seen or not b["why"].startswith(prefix):
             continue
         seen.add(key)
         ck.violation(key, "%s: client %s (%s), %d items, attached until packet %d" % (b["why"], b["c"], b["proto"], b["nitems"], b["left_at"]), b)
